@@ -5,14 +5,25 @@ S: Encrypt.tla (mechanism of pkg/blobserver/encrypt: ciphertexts, meta blobs wit
    scan, tampering with ideal authenticated encryption): Recoverable, IndexRight, IndexBackedByMeta, FetchSound,
    AckedFetchable, DeleteOnlyCovered; sensitivity: DeleteBeforeUpload must violate Recoverable, IndexBeforeMeta must
    violate IndexBackedByMeta, NoDigestCheck and MetaShapedBlobAccepted must violate FetchSound.
+   The Full threshold (FullMetaBlobSize: recordMeta ignores meta blobs of more than Full lines, the gather loop closes a
+   group as soon as it exceeds Full lines and pushes a single left-over back, a packed meta blob of >= Full lines is not
+   recorded again) is explored with Limit 2-3 / Full 1-4 (Encrypt_full.cfg); FlushDropsCarriedMeta (a popped meta blob is
+   deleted by a job whose packed blob does not hold its entries) must violate Recoverable; reachability witnesses
+   (PushBack, TwoGroups, Ignored, NotRerecorded, FullPacked) must each be violated; RecvBatch (the macro step of the
+   trace spec) must add no reachable state (Macro = TRUE finds the same number of distinct states).
 G: EncryptGen.tla enumerates scenarios (history length class x restart points relative to the compaction steps;
    crash point = lower-layer call around one compaction x index kept/wiped x second crash inside the compaction the
    restart starts; tamper target x kind x position class x index kept/wiped); harness/cmd/c11 runs them on the real
-   encrypt store over gate stores (Plan.FreezeAt, Durable.Clone, rebuild with the index wiped), plus seeded random ones.
+   encrypt store over gate stores (Plan.FreezeAt, Durable.Clone, rebuild with the index wiped), plus seeded random ones;
+   family "long": Full + Limit + 50 receives through one store (the rolling packed meta blob exceeds Full lines), restarts
+   before / at / after the crossing, a final restart from the wrapped stores alone, every blob fetched.
 T: Trace_Encrypt.tla validates every recorded segment in one linear pass per shard: every mutating lower-layer call
    must be the next step of the model with the code's threshold (100), projections of the real stores must equal the
    model's state, crash states must be Recoverable, restarts must rebuild exactly the acknowledged map, the client
-   view must be the BlobStore map, leak scans must be empty, tamper outcomes original-or-fail.
+   view must be the BlobStore map, leak scans must be empty, tamper outcomes original-or-fail.  Long histories are
+   validated at step level too: a run of complete, undisturbed receive cycles is ONE line carrying the data of all its
+   lower-layer calls and ONE RecvBatch step (= k x RecvStart..RecvAck); every call of every compaction, every restart and
+   projection is its own line.  Thorough: one long history also with one line per lower-layer call (51 000 lines).
 TLC is the only oracle; the Go side projects (decrypts with the harness's copy of the key, compares bytes, scans)."""
 import json
 import os
@@ -25,14 +36,17 @@ LEVEL = "model_checking"
 os.environ.setdefault("JAVA_TOOL_OPTIONS", "-XX:TieredStopAtLevel=1 -XX:ParallelGCThreads=2")
 
 TRACE = ("Trace_Encrypt", "Trace_Encrypt.cfg")
-LIMIT = {"Limit": "100"}     # replaced by the constant of the code under test (encrypt.SmallMetaCountLimit)
+LIMIT = {"Limit": "100", "Full": "10000"}     # replaced by the constants of the code under test (encrypt.SmallMetaCountLimit, FullMetaBlobSize)
+# one long validation is a single TLC run of 10-20 s over states of 10^4 blobs: full JIT pays, and it needs room
+LONG_ENV = {"JAVA_TOOL_OPTIONS": "-XX:ParallelGCThreads=2 -Xmx3g"}
+RAW_ENV = {"JAVA_TOOL_OPTIONS": "-XX:ParallelGCThreads=2 -Xmx6g"}      # one line per lower-layer call: 10^5 states of 10^4 blobs
 
 
 def is_reset(e):
     return e.get("ev") == "reset"
 
 
-def validate(ctx, tracefile, evs=None, overrides=None):
+def validate(ctx, tracefile, evs=None, overrides=None, env=None):
     """One linear TLC pass; returns [(segment, index of first unexplained line, reasons)] (see vlib.tlc_trace_segments)."""
     if evs is None:
         evs = vlib.read_ndjson(tracefile)
@@ -40,12 +54,12 @@ def validate(ctx, tracefile, evs=None, overrides=None):
         return [], evs
     ov = dict(LIMIT)
     ov.update(overrides or {})
-    r = ctx.tlc_trace(TRACE[0], TRACE[1], tracefile, timeout=1500, overrides=ov)
+    r = ctx.tlc_trace(TRACE[0], TRACE[1], tracefile, timeout=1500, overrides=ov, env=env)
     if not r["accepted"]:
         raise vlib.MachineryError("Trace_Encrypt: the dead chain did not consume %s: %s" % (tracefile, r["out"][-2000:]))
     hw = set(int(x) for x in re.findall(r'<<"HW", (\d+)>>', r["out"]))
     why = {}
-    for m in re.finditer(r'<<"WHY", (\d+),\s*"([^"]*)"\s*>>', r["out"], re.S):
+    for m in re.finditer(r'<<\s*"WHY",\s*(\d+),\s*"([^"]*)"\s*>>', r["out"], re.S):     # (TLC wraps long tuples)
         why.setdefault(int(m.group(1)), []).append(" ".join(m.group(2).split()))
     starts = [i for i, e in enumerate(evs) if is_reset(e)]
     if not starts or starts[0] != 0:
@@ -67,7 +81,7 @@ def slug(s):
 
 def short(e, n=300):
     d = {k: v for k, v in e.items() if k not in ("scn",)}
-    for k in ("metas", "enc", "index", "list", "out", "ids", "affected", "bs", "sizes", "pre"):
+    for k in ("metas", "enc", "index", "list", "out", "ids", "affected", "bs", "sizes", "pre", "ps", "cs", "ms", "szs"):
         if isinstance(d.get(k), list) and len(d[k]) > 6:
             d[k] = d[k][:6] + ["...%d" % len(d[k])]
     return json.dumps(d)[:n]
@@ -97,6 +111,9 @@ def classify(ctx, seg, idx, reasons, leg, replay_path=None):
             what = "lower:%s" % ev.get("act")
         elif ev.get("ev") == "restart":
             what = "restart:%s:wipe=%s" % (ev.get("res"), str(ev.get("wipe")).lower())
+        elif ev.get("ev") == "fetchn":
+            bad = sorted(set(str(o[0]) for o in ev.get("out", []) if o[0] != "ok"))
+            what = "fetchn:%s" % "+".join(bad)[:40]
         else:
             what = ev.get("ev")
         if scn.get("kind") == "crash":
@@ -108,18 +125,20 @@ def classify(ctx, seg, idx, reasons, leg, replay_path=None):
             reasons = ["the lower-layer call '%s' is not the next step of the receive in flight or of a compaction job" % ev.get("act")]
         sig = "C11/encrypt/%s/%s/%s" % (fam, what, slug(reasons[0]))
     replay = {"property": "C11", "leg": leg, "scenario": scn, "seed": ctx.seed, "label": label, "reasons": reasons,
-              "line": {k: v for k, v in ev.items() if k not in ("metas", "enc", "index")},
+              "line": json.loads(short(ev, 4000)) if ev.get("ev") in ("recvn", "fetchn") else
+                      {k: v for k, v in ev.items() if k not in ("metas", "enc", "index")},
               "context": [short(e, 200) for e in seg[max(1, idx - 6):idx]]}
     ctx.discrepancy(sig, ("%s | %s | %s" % ("; ".join(reasons), label, short(ev)))[:700], replay_path or replay)
 
 
-def run_shard(ctx, drv, name, scns, seed, random=0, keep=True):
+def drive(ctx, drv, name, scns, seed, random=0, extra=()):
+    """Run the driver on the real code; returns (trace file, classes, stats) or None after reporting a panic."""
     sf = ctx.path("scn_%s.jsonl" % name)
     vlib.write_jsonl(sf, scns)
     out = ctx.path("tr_%s.ndjson" % name)
     sd = ctx.path("drv_%s" % name)
     os.makedirs(sd, exist_ok=True)
-    argv = [drv, "-out", out, "-seed", str(seed), "-scratch", sd]
+    argv = [drv, "-out", out, "-seed", str(seed), "-scratch", sd] + list(extra)
     if scns:
         argv += ["-scn", sf]
     if random:
@@ -131,13 +150,81 @@ def run_shard(ctx, drv, name, scns, seed, random=0, keep=True):
             fr = re.search(r"(perkeep\.org/[^\s(]+)", se[pm.end():])
             ctx.discrepancy("C11/encrypt/driver/panic@%s" % (fr.group(1) if fr else "?"), "process died: %s" % pm.group(1)[:300],
                             {"property": "C11", "scenarios": scns, "seed": seed, "panic": se[pm.start():pm.start() + 1500]})
-            return {"segments": 0, "lines": 0, "classes": {}, "stats": {}, "fails": [], "evs": []}
+            return None
         raise vlib.MachineryError("c11 driver failed rc=%s: %s" % (rc, se[-2000:]))
     classes = json.loads(re.search(r"classes=(.*)", so).group(1))
     stats = json.loads(re.search(r"stats=(.*)", so).group(1))
+    return out, classes, stats
+
+
+EMPTY = {"segments": 0, "lines": 0, "classes": {}, "stats": {}, "fails": [], "evs": []}
+
+
+def run_shard(ctx, drv, name, scns, seed, random=0, keep=True):
+    d = drive(ctx, drv, name, scns, seed, random)
+    if d is None:
+        return dict(EMPTY)
+    out, classes, stats = d
     fails, evs = validate(ctx, out)
     return {"segments": sum(1 for e in evs if is_reset(e)), "lines": len(evs), "classes": classes, "stats": stats, "fails": fails,
             "evs": evs if keep else []}
+
+
+def long_overrides(scn):
+    return {"NBlobs": str(scn["n"] + 60)}
+
+
+def run_long(ctx, drv, name, scn, seed, negative=False):
+    """One history past FullMetaBlobSize: its own driver process and its own TLC pass (states of 10^4 blobs); the
+    binding self-test of the macro lines runs beside it on a prefix of the same recorded history."""
+    d = drive(ctx, drv, name, [scn], seed)
+    if d is None:
+        return dict(EMPTY)
+    out, classes, stats = d
+    evs = vlib.read_ndjson(out)
+    ov = long_overrides(scn)
+    with ThreadPoolExecutor(max_workers=2) as ex:
+        nf = ex.submit(long_negative, ctx, evs, ov) if negative else None
+        fails, _ = validate(ctx, out, evs, overrides=ov, env=RAW_ENV if scn.get("raw") else LONG_ENV)
+        if nf is not None:
+            try:
+                nf.result()
+            except vlib.MachineryError:
+                if not fails:       # (a history that is itself rejected is reported as such)
+                    raise
+    return {"segments": 1, "lines": len(evs), "classes": classes, "stats": stats, "fails": fails, "evs": []}
+
+
+def long_negative(ctx, evs, ov):
+    """Binding of the macro lines: the accepted prefix up to the first fetchn line, corrupted in one field, must be rejected."""
+    i_f = next((i for i, e in enumerate(evs) if e.get("ev") == "fetchn"), None)
+    i_r = next((i for i, e in enumerate(evs) if e.get("ev") == "recvn" and len(e.get("ps", [])) >= 3), None)
+    if i_f is None or i_r is None or i_r > i_f:
+        raise vlib.MachineryError("long history without a recvn line before the first fetchn line")
+    pre = evs[:i_f + 1]          # (a prefix of an accepted segment is accepted: every line is marked as it is consumed)
+    bad, want = [], []
+    c = [json.loads(json.dumps(e)) for e in pre[:i_r + 1]]
+    c[i_r]["cs"][1] += 1                       # a ciphertext stored under another name than the one the index row got
+    bad += c
+    want.append("recvn-ciphertext-id")
+    c = [json.loads(json.dumps(e)) for e in pre[:i_r + 1]]
+    c[i_r]["ps"][2] = c[i_r]["ps"][0]          # the same blob stored twice in one run of NEW blobs
+    bad += c
+    want.append("recvn-duplicate")
+    c = [json.loads(json.dumps(e)) for e in pre]
+    k = next((j for j, o in enumerate(c[i_f]["out"]) if o[0] == "ok"), None)
+    if k is not None:
+        c[i_f]["out"][k] = ["notexist", 0]     # an acknowledged blob not fetchable
+        bad += c
+        want.append("fetchn-lost")
+    bf = ctx.path("negative_long.ndjson")
+    vlib.write_jsonl(bf, bad)
+    fails, _ = validate(ctx, bf, bad, overrides=ov)
+    if len(fails) != len(want):
+        raise vlib.MachineryError("negative samples (long): %d corrupted segments (%s) but %d rejected - the macro lines do not bind" %
+                                  (len(want), want, len(fails)))
+    ctx.count("T", negative_samples_rejected=len(fails))
+    ctx.sample({"negative_samples_rejected_long": want, "reasons": [f[2][0] for f in fails]})
 
 
 def cost(s):
@@ -209,15 +296,22 @@ def run(ctx, replay):
     # the threshold is a policy constant of the code, not part of the property: the model runs with the code's value
     rc, so, se = ctx.run([drv, "-limit"], timeout=60)
     LIMIT["Limit"] = re.search(r"limit=(\d+)", so).group(1)
+    LIMIT["Full"] = re.search(r"full=(\d+)", so).group(1)
     if not 20 <= int(LIMIT["Limit"]) <= 150:
         raise vlib.MachineryError("SmallMetaCountLimit = %s: the history lengths of EncryptGen (105..320) no longer cross the compaction "
                                   "threshold twice; adapt EncryptGen.tla" % LIMIT["Limit"])
+    if not 2000 <= int(LIMIT["Full"]) <= 12000:
+        raise vlib.MachineryError("FullMetaBlobSize = %s: the long family (Full + Limit + 50 receives) is sized for about 10^4; adapt "
+                                  "EncryptGen.tla / the budget" % LIMIT["Full"])
     ctx._cfg(TRACE[1], dict(LIMIT))
     if replay:
         rp = json.load(open(replay))
         if "scenario" not in rp:
             raise vlib.MachineryError("replay file has no scenario")
-        res = run_shard(ctx, drv, "replay", [rp["scenario"]], rp.get("seed", ctx.seed))
+        if rp["scenario"].get("kind") == "long":
+            res = run_long(ctx, drv, "replay", rp["scenario"], rp.get("seed", ctx.seed))
+        else:
+            res = run_shard(ctx, drv, "replay", [rp["scenario"]], rp.get("seed", ctx.seed))
         for seg, idx, why in res["fails"]:
             classify(ctx, seg, idx, why, "replay", replay_path=replay)
         ctx.cov["traces_validated_against_impl"] += res["segments"]
@@ -225,9 +319,22 @@ def run(ctx, replay):
         return
     tier = '"quick"' if quick else '"thorough"'
     # derive every cfg before the threads start (vlib derives in place)
-    scns = ctx.tlc_gen("EncryptGen", "EncryptGen.cfg", overrides={"Tier": tier}, tag="SCN")
+    scns = ctx.tlc_gen("EncryptGen", "EncryptGen.cfg", overrides=dict(LIMIT, Tier=tier), tag="SCN")
     for s in scns:
         s["restarts"] = s.get("restarts") or []
+    longs = sorted((s for s in scns if s["kind"] == "long"), key=lambda s: (not s.get("raw"), json.dumps(s, sort_keys=True)))
+    scns = [s for s in scns if s["kind"] != "long"]
+    if not longs:
+        raise vlib.MachineryError("EncryptGen produced no long history")
+    for s in longs:
+        ctx._cfg(TRACE[1], dict(LIMIT, **long_overrides(s)))
+    # the Full mechanism with small constants (Encrypt_full.cfg: 5 blobs, Limit 2, Full 4 - the rolling packed meta blob of
+    # 3 lines plus 2 small ones exceed Full); SPLIT: a gather closes two groups; PB: push-back of a left-over, a full meta
+    # blob met by the start-up scan, a packed meta blob of exactly Full lines not recorded again
+    FULL = "Encrypt_full.cfg"
+    SPLIT = {"Plain": "{p1, p2, p3, p4}", "Limit": "3", "Full": "1", "MaxId": "12", "MaxCrash": "1", "MaxJobs": "3"}
+    PB = {"Plain": "{p1, p2, p3, p4}", "Limit": "2", "Full": "3", "MaxId": "12", "MaxCrash": "2"}
+    DROP = '{"FlushDropsCarriedMeta"}'
     s_jobs = [
         ("MC_Encrypt", "Encrypt.cfg", None, None),
         ("MC_Encrypt", "Encrypt.cfg", {"Plain": "{p1, p2, p3}", "MaxId": "10", "MaxCrash": "2"}, None),
@@ -236,10 +343,22 @@ def run(ctx, replay):
         ("Encrypt", "Encrypt_tamper.cfg", None, None),
         ("Encrypt", "Encrypt_tamper.cfg", {"Deviations": '{"NoDigestCheck"}'}, "FetchSound"),
         ("Encrypt", "Encrypt_tamper.cfg", {"Deviations": '{"MetaShapedBlobAccepted"}'}, "FetchSound"),
+        ("MC_Encrypt", "Encrypt.cfg", {"Macro": "TRUE"}, None),
+        ("MC_Encrypt", FULL, None if quick else {"MaxCrash": "1"}, None),
+        ("MC_Encrypt", FULL, {"Deviations": DROP}, "Recoverable"),
+        ("MC_Encrypt", FULL, SPLIT, None),
+        ("MC_Encrypt", FULL, dict(SPLIT, Deviations=DROP), "Recoverable"),
+        ("MC_Encrypt", FULL, dict(SPLIT, Witness='"TwoGroups"'), "WitnessStep"),
+        ("MC_Encrypt", FULL, dict(PB, Witness='"PushBack"'), "WitnessStep"),
+        ("MC_Encrypt", FULL, dict(PB, Witness='"Ignored"'), "WitnessStep"),
+        ("MC_Encrypt", FULL, dict(PB, Witness='"NotRerecorded"'), "WitnessStep"),
+        ("MC_Encrypt", FULL, dict(PB, Witness='"FullPacked"'), "WitnessState"),
     ]
     if not quick:
         s_jobs += [("MC_Encrypt", "Encrypt.cfg", {"MaxId": "12", "MaxCrash": "2"}, None),
-                   ("Encrypt", "Encrypt_tamper.cfg", {"Plain": "{p1, p2, p3, p4}", "MaxId": "9"}, None)]
+                   ("Encrypt", "Encrypt_tamper.cfg", {"Plain": "{p1, p2, p3, p4}", "MaxId": "9"}, None),
+                   ("MC_Encrypt", FULL, {"MaxCrash": "1", "Macro": "TRUE"}, None),
+                   ("MC_Encrypt", FULL, PB, None)]
     for m, c, ov, _ in s_jobs:
         ctx._cfg(c, ov)
     ctx._cfg(TRACE[1], dict(LIMIT, Deviations='{"MetaShapedBlobAccepted"}'))
@@ -260,7 +379,9 @@ def run(ctx, replay):
         if cov:
             # every action of the module (also the disjuncts of ENext that TLC reports by position) must have fired;
             # by construction of the configuration: no tampering in Encrypt.cfg, no crash in Encrypt_tamper.cfg
-            exempt = ("Tamper", "TamperedRestart", "Restore") if c == "Encrypt.cfg" else ("Crash",)
+            exempt = ("Crash",) if c == "Encrypt_tamper.cfg" else ("Tamper", "TamperedRestart", "Restore")
+            if (ov or {}).get("Macro") != "TRUE":
+                exempt += ("MacroStep",)
             zero = []
             for mm in re.finditer(r"<(\w+) line (\d+), col \d+ to line \d+, col \d+ of module \w+(?: \((\d+) \d+ \d+ \d+\))?>: (\d+):(\d+)", r["out"]):
                 name = mm.group(1) if not mm.group(3) else "%s@line%s" % (mm.group(1), mm.group(3))
@@ -268,7 +389,10 @@ def run(ctx, replay):
                     zero.append(name)
             if zero:
                 raise vlib.MachineryError("anti-vacuity: actions never taken in %s/%s %s: %s" % (m, c, ov, zero))
-        return None
+        return r.get("distinct")
+
+    def l_work(k):
+        return run_long(ctx, drv, "long%d" % k, longs[k], ctx.seed, negative=(k == len(longs) - 1))
 
     def g_work(i):
         if i == nshards:
@@ -277,15 +401,44 @@ def run(ctx, replay):
 
     results = []
     with ThreadPoolExecutor(max_workers=12) as ex:
+        lf = [ex.submit(l_work, k) for k in range(len(longs))]        # the long histories are the critical path: first
         gf = [ex.submit(g_work, i) for i in range(nshards + 1)]
         sf = [ex.submit(s_work, j) for j in s_jobs]
-        for f in sf:
-            f.result()
+        distinct = {}
+        for j, f in zip(s_jobs, sf):
+            distinct[(j[0], j[1], json.dumps(j[2], sort_keys=True))] = f.result()
         for f in gf:
             results.append(f.result())
+        lresults = [f.result() for f in lf]
+    # the macro step adds no reachable state
+    for (m, c, ovj), d in distinct.items():
+        ov = json.loads(ovj) or {}
+        if ov.get("Macro") == "TRUE":
+            base = {k: v for k, v in ov.items() if k != "Macro"} or None
+            d0 = distinct.get((m, c, json.dumps(base, sort_keys=True)))
+            if d0 is None or d0 != d:
+                raise vlib.MachineryError("RecvBatch is not k x (RecvStart..RecvAck): %s/%s %s has %s distinct states with the macro step, "
+                                          "%s without" % (m, c, base, d, d0))
+    # the long family must have brought a packed meta blob up to Full lines (a compaction job that lost the race for the
+    # index row of the receive that started it gives up, and the rolling packed meta blob starts again from nothing); a
+    # history that is rejected is reported as such, whatever it reached
+    def reached():
+        return any(c.startswith("long/reached-full") for r in lresults for c in r["classes"]) or any(r["fails"] for r in lresults)
+    for attempt in range(2):
+        if reached():
+            break
+        lresults.append(run_long(ctx, drv, "longretry%d" % attempt, longs[-1], ctx.seed + 5000 + attempt))
+    if not reached():
+        raise vlib.MachineryError("no long history brought a packed meta blob to FullMetaBlobSize - SmallMetaCountLimit lines: %s" %
+                                  [sorted(r["classes"]) for r in lresults])
     nseg = nlines = 0
     classes = {}
     stats = {}
+    for res in lresults:
+        for seg, idx, why in res["fails"]:
+            classify(ctx, seg, idx, why, "G-long")
+        res["fails"] = []
+    results += lresults
     for k, res in enumerate(results):
         nseg += res["segments"]
         nlines += res["lines"]
@@ -332,12 +485,16 @@ def run(ctx, replay):
                 "metas_after_230_receives_when_the_first_job_gave_up": stats.get("metas_at_end:230:first-job-gave-up"),
                 "lower_calls_of_the_compaction_window": stats.get("window_calls"),
                 "tamper_runs": stats.get("tamper_runs")})
+    ctx.sample({"long_histories": len(longs), "long": {k: v for k, v in sorted(stats.items()) if k.startswith("long_")}})
     ctx.sample({"crash_classes": sorted(c for c in classes if c.startswith("crash@"))[:40]})
     ctx.count("G", scenarios=len(scns), random=nrandom, segments=nseg, tamper_runs=stats.get("tamper_runs", 0))
     ctx.cov["traces_validated_against_impl"] = nseg
     ctx.cov["evaluations"] = nlines
     ctx.cov["exhaustive"] = True
     ctx.cov["rule"] = ("scenario = hist(length class, restart points relative to the compaction steps, index kept/wiped) | "
+                       "long(Full + Limit + 50 receives, restart before / at / after the packed meta blob exceeds Full lines, index "
+                       "kept/wiped, final restart from the wrapped stores alone, every blob fetched; macro lines for undisturbed "
+                       "receive cycles) | "
                        "crash(frozen lower-layer call around one compaction incl. half-done RemoveBlobs, index kept/wiped, second crash "
                        "inside the start-up compaction, continuation) | tamper(target class, kind, position class, index kept/wiped); all "
                        "enumerated by EncryptGen.tla (%d) plus %d seeded random ones; every mutating lower-layer call, every projection of "
@@ -348,5 +505,9 @@ def run(ctx, replay):
         "age is an ideal authenticated encryption: the model lets a damaged file never decrypt and an authentic one decrypt to what was encrypted; the real library decides on the real bytes",
         "no-leak is decided by the projection: every 16-byte window of every plain blob of >= 16 bytes and every plain ref (text, hex digest, raw digest) is searched in all bytes and names of both wrapped stores; the local index is not underneath",
         "compaction quiescence = no live makePackedMetaBlob goroutine (stack scan, bounded by a 30 s watchdog)",
-        "histories stay below 1000 meta blobs (one enumeration page) and far below FullMetaBlobSize (10000 entries)",
+        "histories stay below 1000 meta blobs (one enumeration page)",
+        "the heap's pop order among meta blobs of equal line count is not observable: the trace spec takes them by id, which matters only "
+        "when a group boundary (more than Full lines) falls inside a run of equally long meta blobs - not the case in any family; the "
+        "model checker explores every order",
+        "long family: leak scan for every 50th blob only; its lower-layer calls are all validated, packed k cycles to a line",
     ]
